@@ -72,6 +72,11 @@ ALL_FAMILIES_TEXT = """
 
 def all_families_neighbor(las=65533, pas=65533, asn4=True, addpath=0, adj_rib_in=False, extra=''):
     """A neighbor (real configuration parser) with every family ExaBGP can configure."""
+    conf = exa.load_config(all_families_text(las, pas, asn4, addpath, adj_rib_in, extra))
+    return list(conf.neighbors.values())[0]
+
+
+def all_families_text(las=65533, pas=65533, asn4=True, addpath=0, adj_rib_in=False, extra=''):
     cap = f'asn4 {"enable" if asn4 else "disable"}; route-refresh enable; extended-message enable; operational enable; nexthop enable;'
     ap = ''
     if addpath:
@@ -91,8 +96,7 @@ neighbor 127.0.0.2 {{
     nexthop {{ ipv4 unicast ipv6; ipv4 multicast ipv6; ipv4 nlri-mpls ipv6; ipv4 mpls-vpn ipv6; }}
 }}
 """
-    conf = exa.load_config(text)
-    return list(conf.neighbors.values())[0]
+    return text
 
 
 def mirror_session(neighbor, peer_rid='10.0.0.2', peer_as=None, peer_asn4=True, hold=180):
